@@ -514,7 +514,7 @@ class CFG:
             val._trim_cache[bottomup_only] = val
             return val
 
-        T = {self.S}
+        T = {self.S} & C
         agenda.update(T)
         while agenda:
             x = agenda.pop()
